@@ -17,6 +17,10 @@ Vocabulary (all defined in Model/Table.lean and Lemmas/Table.lean):
   (`process_single_timestep` with the scalar keys `callSk` decided on the first
   row), `relData E cv r` the `rel.data` of the fresh `AurelCore` of row `r`,
   `colsOf` list of dicts → dict of columns, `colOf k rows` column `k`.
+
+Further theorems (estimates passed in every call, items that read custom
+variables, one explicit permutation for all columns, strong non-interference,
+what later calls cannot change): Props/C14b.lean.
 -/
 import AurelVerif.Lemmas.Table
 
